@@ -33,7 +33,7 @@ def classify(case, detail):
 
     if detail.startswith("total/load-panic") and "assigning invalid type" in detail:
         return "repeated-enum-argument-panic"
-    if feat == "mixed" and tags and (
+    if feat == "multi" and tags and (
             "is required but has no value" in detail or "why=extra-key" in detail or "why=missing-key" in detail
             or "length of values doesn't match" in detail or "why=null-at-non-null" in detail):
         return "entity-batch-mixed-types"
